@@ -51,6 +51,7 @@ type Contract struct {
 	Inline       bool
 	Pure         bool
 	NoOverflow   bool
+	CellRanges   bool // give the solver the byte range of heap cells that come from instantiated quantified clauses
 	HeapNonNil   bool // sweep contracts: pointers and interfaces loaded from memory are assumed non-nil
 	Requires     []*Expr
 	Ensures      []*Expr
@@ -297,6 +298,8 @@ func (db *ContractDB) LoadContractFile(path, pkgPath string) error {
 			cur.Decreases = e
 		case "nooverflow":
 			cur.NoOverflow = true
+		case "cellranges":
+			cur.CellRanges = true
 		case "heapnonnil":
 			cur.HeapNonNil = true
 		case "nopanic":
